@@ -11,6 +11,7 @@ import (
 	"fmt"
 	"net"
 	"time"
+	"verif/htlab/internal/gen"
 
 	"verif/htlab/internal/core"
 	"verif/htlab/internal/lab"
@@ -35,8 +36,8 @@ func (prop) Assumptions() []string {
 }
 
 var (
-	me      = net.IPv4(127, 0, 0, 1)
-	peerIP  = net.IPv4(198, 18, 0, 1)
+	me       = net.IPv4(127, 0, 0, 1)
+	peerIP   = net.IPv4(198, 18, 0, 1)
 	localMAC = net.HardwareAddr{0, 0, 0, 0, 0, 0}
 )
 
@@ -275,6 +276,18 @@ func seeded(seed int64, i int) []byte {
 		raw := append(make([]byte, (off-5)*4-n), o...)
 		return clamp(ipFrame(fr.IPv4{IHL: -1, TotalLen: -1, Proto: 6}, fr.TCP{Sport: uint16(r.Intn(65536)), Dport: 8080, Seq: 7, Off: off, Flags: fr.SYN, Options: raw}.Marshal(peerIP, me, nil)))
 	case 5: // UDP to decoders with protocol-looking or random payloads
+		if r.Bool() {
+			// a well-formed message of the decoded protocol, cut short or mutated: the decoders' own
+			// length fields then point past the end of the datagram
+			dport, msg := shapedUDP(r)
+			switch r.Intn(3) {
+			case 0:
+				msg = msg[:r.Intn(len(msg)+1)]
+			case 1:
+				msg = gen.Mutate(r, msg)
+			}
+			return clamp(ipFrame(fr.IPv4{IHL: -1, TotalLen: -1, Proto: 17}, fr.UDP(peerIP, me, uint16(1024+r.Intn(60000)), dport, -1, msg)))
+		}
 		return clamp(ipFrame(fr.IPv4{IHL: -1, TotalLen: -1, Proto: 17}, fr.UDP(peerIP, me, uint16(r.Intn(65536)), uint16(r.PickI([]int{53, 123, 1900, 5060, 161, 162, 9, r.Intn(65536)})), -1, r.Bytes(r.Range(0, 300)))))
 	case 6: // mutated valid IPv4 header
 		f := ipFrame(fr.IPv4{IHL: -1, TotalLen: -1, Proto: 6}, fr.TCP{Sport: 5, Dport: 80, Off: -1, Flags: fr.SYN}.Marshal(peerIP, me, nil))
@@ -286,6 +299,31 @@ func seeded(seed int64, i int) []byte {
 		return clamp(ipFrame(fr.IPv4{IHL: -1, TotalLen: -1, Proto: uint8(r.PickI([]int{1, 6, 17})), Options: r.Bytes(4 * r.Range(1, 10))}, r.Bytes(r.Range(0, 64))))
 	default: // full handshake-ish sequence element: ACK/PSH/FIN for a tuple that a case-2 SYN may have created
 		return clamp(ipFrame(fr.IPv4{IHL: -1, TotalLen: -1, Proto: 6}, fr.TCP{Sport: uint16(1024 + r.Intn(60000)), Dport: 8080, Seq: uint32(r.U64()), Ack: uint32(r.U64()), Off: -1, Flags: uint8(r.PickI([]int{fr.ACK, fr.ACK | fr.PSH, fr.FIN | fr.ACK, fr.RST}))}.Marshal(peerIP, me, r.Bytes(r.Intn(40)))))
+	}
+}
+
+// shapedUDP returns a decoded port and a well-formed message for it.
+func shapedUDP(r *core.Rng) (uint16, []byte) {
+	switch r.Intn(5) {
+	case 0:
+		q := gen.DNSQuery(uint16(r.Intn(65536)), r.Alnum(r.Range(1, 12))+"."+r.Alnum(3), uint16(r.PickI([]int{1, 16, 28, 255})))
+		if r.Bool() {
+			q[5] = byte(r.PickI([]int{1, 2, 5, 255})) // announced question count
+		}
+		if r.Chance(1, 3) {
+			q[7], q[9], q[11] = byte(r.Intn(4)), byte(r.Intn(4)), byte(r.Intn(4)) // answers announced, none present
+		}
+		return 53, q
+	case 1:
+		d := gen.NTPDialogue(r)
+		return 123, d[r.Intn(len(d))]
+	case 2:
+		return 1900, []byte("M-SEARCH * HTTP/1.1\r\nHOST: 239.255.255.250:1900\r\nMAN: \"ssdp:discover\"\r\nMX: 1\r\nST: ssdp:all\r\n\r\n")
+	case 3:
+		return 5060, []byte("OPTIONS sip:100@10.0.0.1 SIP/2.0\r\nVia: SIP/2.0/UDP 10.0.0.9:5060;branch=z9hG4bK-" + r.Alnum(6) + "\r\nFrom: <sip:a@b>;tag=1\r\nTo: <sip:100@10.0.0.1>\r\nCall-ID: " + r.Alnum(8) + "\r\nCSeq: 1 OPTIONS\r\nContent-Length: 0\r\n\r\n")
+	default:
+		d := gen.SNMPDialogue(r)
+		return uint16(r.PickI([]int{161, 162})), d[r.Intn(len(d))]
 	}
 }
 
@@ -328,14 +366,14 @@ func hashFrames(fs [][]byte) string {
 // ---- child -----------------------------------------------------------------
 
 type scnRec struct {
-	Mode    string `json:"mode"`
-	Tables  string `json:"tables"`
-	Frames  int    `json:"frames"`
-	Hash    string `json:"hash"`
-	Events  int    `json:"events"`
-	ProbeOK bool   `json:"probe_ok"`
-	States  int    `json:"states"`
-	WallMs  int64  `json:"wall_ms"`
+	Mode    string         `json:"mode"`
+	Tables  string         `json:"tables"`
+	Frames  int            `json:"frames"`
+	Hash    string         `json:"hash"`
+	Events  int            `json:"events"`
+	ProbeOK bool           `json:"probe_ok"`
+	States  int            `json:"states"`
+	WallMs  int64          `json:"wall_ms"`
 	Cats    map[string]int `json:"cats,omitempty"`
 }
 
